@@ -1,3 +1,3 @@
 #!/bin/sh
 # run the repository's own suite on a tree (default /repo); prints the summary line
-cd "${1:-/repo}" && /venv/bin/python -m pytest -q -p no:cacheprovider --timeout=900 -x -q 2>&1 | tail -3
+cd "${1:-/repo}" && PYTHONPATH="${1:-/repo}/src" /venv/bin/python -m pytest -q -p no:cacheprovider --timeout=900 -x -q 2>&1 | tail -3
